@@ -9,6 +9,7 @@ import (
 	"encoding/json"
 	"fmt"
 	"strings"
+	"sync"
 	"sync/atomic"
 	"testing"
 	"time"
@@ -44,6 +45,73 @@ type Case struct {
 	Live       bool `json:"live_consumers,omitempty"`
 	Late       int  `json:"late_consumers,omitempty"`
 	BrokenTail bool `json:"broken_tail,omitempty"`
+	// `chosencases` (HTTP formats and grpc/json): "subset" lists the tags of the entries Chosen (indexes, at least one)
+	// and, with GhostTag, a tag no entry carries; "nothing" lists only GhostTag - the filter matches no entry of the file.
+	Filter   string `json:"chosencases,omitempty"`
+	Chosen   []int  `json:"chosen_entries,omitempty"`
+	GhostTag string `json:"ghost_tag,omitempty"`
+	// entry sizes (kinds whose entries carry a body / payload): filler bytes per entry, 0 = the tiny default; and the
+	// `maxammosize` option (HTTP formats and grpc/json). Entries above 64 KiB (bufio.MaxScanTokenSize, the documented
+	// default of maxammosize) are generated only for http/json and grpc/json and only with maxammosize well above them.
+	Sizes       []int `json:"entry_sizes,omitempty"`
+	MaxAmmoSize int   `json:"maxammosize,omitempty"`
+}
+
+// kinds that have the chosencases and maxammosize options
+func hasFilter(k string) bool { return isHTTP(k) || k == "grpc/json" }
+
+// kinds whose entries have a body / payload that can be made long
+func hasBody(k string) bool {
+	return k == "uripost" || k == "raw" || k == "jsonline" || k == "jsonarray" || k == "grpc/json"
+}
+
+// kinds for which maxammosize is documented as the bound of one entry ("Maximum number of byte in (jsonline) ammo")
+func sizeBoundedByOption(k string) bool {
+	return k == "jsonline" || k == "jsonarray" || k == "grpc/json"
+}
+
+const defaultMaxEntry = 64 << 10 // bufio.MaxScanTokenSize
+
+// effective number of entries: those the chosencases filter lets through
+func (c Case) effEntries() int {
+	switch c.Filter {
+	case "subset":
+		return len(c.Chosen)
+	case "nothing":
+		return 0
+	}
+	return c.Entries
+}
+
+func (c Case) maxSize() int {
+	m := 0
+	for _, s := range c.Sizes {
+		if s > m {
+			m = s
+		}
+	}
+	return m
+}
+
+func (c Case) size(i int) int {
+	if i < len(c.Sizes) {
+		return c.Sizes[i]
+	}
+	return 0
+}
+
+func filler(n int) string {
+	const pat = "abcdefghijklmnopqrstuvwxyz0123456789ABCDEFGHIJKLMNOPQRSTUVWXYZ-_"
+	var sb strings.Builder
+	sb.Grow(n)
+	for sb.Len() < n {
+		k := n - sb.Len()
+		if k > len(pat) {
+			k = len(pat)
+		}
+		sb.WriteString(pat[:k])
+	}
+	return sb.String()
 }
 
 // kinds whose file is read entry by entry while the provider runs: a malformed entry after good ones is met mid-run
@@ -98,10 +166,70 @@ func genCase(t *rapid.T) Case {
 	if c.Kind == "json" {
 		c.Queue = rapid.SampledFrom([]int{0, 1, 4, 64}).Draw(t, "queue")
 	}
+	if hasFilter(c.Kind) {
+		switch rapid.SampledFrom([]string{"", "", "", "subset", "subset", "nothing"}).Draw(t, "chosencases") {
+		case "subset":
+			c.Filter = "subset"
+			first := rapid.IntRange(0, c.Entries-1).Draw(t, "chosenFirst")
+			for i := 0; i < c.Entries; i++ {
+				if i == first || rapid.Bool().Draw(t, "chosen") {
+					c.Chosen = append(c.Chosen, i)
+				}
+			}
+			if rapid.Bool().Draw(t, "ghost") {
+				c.GhostTag = genGhost(t, c.Entries)
+			}
+		case "nothing":
+			c.Filter = "nothing"
+			c.GhostTag = genGhost(t, c.Entries)
+			c.SettleUs = rapid.SampledFrom([]int{0, 300, 3000, 20000}).Draw(t, "scanUs")
+			c.Late = rapid.IntRange(0, 2).Draw(t, "lateNothing")
+			c.Live, c.BrokenTail, c.Engine = false, false, false
+			if rapid.IntRange(0, 2).Draw(t, "scansUntilCancel") > 0 {
+				// the cell in which nothing ends the provider but the cancel: it streams and no pass bound is set
+				c.Preload, c.Passes = false, 0
+			}
+		}
+	}
+	if hasBody(c.Kind) {
+		sz := rapid.SampledFrom([]string{"tiny", "big", "medium", "tiny", "big"}).Draw(t, "sizes")
+		if sz == "big" && !sizeBoundedByOption(c.Kind) {
+			sz = rapid.SampledFrom([]string{"tiny", "medium"}).Draw(t, "sizesNoOption")
+		}
+		if sz != "tiny" {
+			c.Sizes = make([]int, c.Entries)
+			special := rapid.IntRange(0, c.Entries-1).Draw(t, "sizedEntry")
+			for i := range c.Sizes {
+				if i != special && rapid.Bool().Draw(t, "staysTiny") {
+					continue
+				}
+				if sz == "big" && (i == special || rapid.IntRange(0, 3).Draw(t, "alsoBig") == 0) {
+					c.Sizes[i] = rapid.IntRange(70<<10, 160<<10).Draw(t, "bigSize")
+				} else {
+					c.Sizes[i] = rapid.IntRange(1<<10, 48<<10).Draw(t, "mediumSize")
+				}
+			}
+		}
+	}
+	if hasFilter(c.Kind) {
+		switch {
+		case c.maxSize() > defaultMaxEntry:
+			c.MaxAmmoSize = rapid.SampledFrom([]int{256 << 10, 1 << 20, 4 << 20}).Draw(t, "maxammosizeBig")
+		case c.maxSize() == 0:
+			c.MaxAmmoSize = rapid.SampledFrom([]int{0, 0, 0, 4096, 128 << 10, 1 << 20}).Draw(t, "maxammosizeTiny")
+		default:
+			c.MaxAmmoSize = rapid.SampledFrom([]int{0, 0, 0, 128 << 10, 1 << 20}).Draw(t, "maxammosize")
+		}
+	}
 	return c
 }
 
-func simpleFile(format string, n int) ag.File {
+// a tag that no entry of the file carries (entries are tagged t0..t<E-1>): unrelated, the next index, or near misses
+func genGhost(t *rapid.T, entries int) string {
+	return rapid.SampledFrom([]string{"no-such-tag", fmt.Sprintf("t%d", entries), "T0", "t0x", "t"}).Draw(t, "ghostTag")
+}
+
+func simpleFile(format string, n int, sizes func(int) int) ag.File {
 	f := ag.File{Format: format}
 	if format == "jsonarray" {
 		f.Format = "jsonline"
@@ -115,6 +243,10 @@ func simpleFile(format string, n int) ag.File {
 			e.Body = []byte(fmt.Sprintf("body%d", i))
 		case "raw":
 			e.Host = "h.example.com"
+		}
+		if sz := sizes(i); sz > 0 {
+			e.Method = "POST"
+			e.Body = []byte(filler(sz))
 		}
 		f.Items = append(f.Items, ag.Item{Entry: &e})
 	}
@@ -145,9 +277,24 @@ func buildConf(c Case) (conf map[string]any, cleanup func(), err error) {
 	if c.Passes > 0 {
 		conf["passes"] = c.Passes
 	}
+	if c.Filter != "" {
+		var tags []any
+		for _, i := range c.Chosen {
+			tags = append(tags, fmt.Sprintf("t%d", i))
+		}
+		if c.GhostTag != "" {
+			// somewhere in the middle of the list
+			at := len(tags) / 2
+			tags = append(tags[:at:at], append([]any{c.GhostTag}, tags[at:]...)...)
+		}
+		conf["chosencases"] = tags
+	}
+	if c.MaxAmmoSize > 0 {
+		conf["maxammosize"] = c.MaxAmmoSize
+	}
 	switch {
 	case isHTTP(c.Kind):
-		f := simpleFile(c.Kind, c.Entries)
+		f := simpleFile(c.Kind, c.Entries, c.size)
 		conf["type"] = ag.ProviderType(f.Format)
 		conf["file"] = write(".ammo", append(f.Render(), tail...))
 		if c.Preload {
@@ -156,7 +303,7 @@ func buildConf(c Case) (conf map[string]any, cleanup func(), err error) {
 	case c.Kind == "grpc/json":
 		var sb strings.Builder
 		for i := 0; i < c.Entries; i++ {
-			b, _ := json.Marshal(map[string]any{"tag": fmt.Sprintf("t%d", i), "call": "target.TargetService.Hello", "payload": map[string]any{"name": fmt.Sprintf("n%d", i)}})
+			b, _ := json.Marshal(map[string]any{"tag": fmt.Sprintf("t%d", i), "call": "target.TargetService.Hello", "payload": map[string]any{"name": fmt.Sprintf("n%d", i) + filler(c.size(i))}})
 			sb.Write(b)
 			sb.WriteString("\n")
 		}
@@ -206,8 +353,9 @@ func check(c Case, o *vf.Obs) error {
 	if c.Limit > 0 {
 		X = c.Limit
 	}
-	if c.Passes > 0 && (X < 0 || c.Passes*c.Entries < X) {
-		X = c.Passes * c.Entries
+	eff := c.effEntries() // the entries the test uses: all of the file, or those chosencases lists
+	if c.Passes > 0 && (X < 0 || c.Passes*eff < X) {
+		X = c.Passes * eff
 	}
 	p, err := provrun.Build(conf)
 	if err != nil {
@@ -227,6 +375,23 @@ func check(c Case, o *vf.Obs) error {
 	o.ClassIf(c.Preload, "preload")
 	o.ClassIf(c.Entries == 1, "single_entry")
 	o.ClassIf(c.Engine, "through_engine")
+	o.ClassIf(c.Filter == "subset", "chosencases_subset")
+	o.ClassIf(c.Filter == "subset" && eff < c.Entries, "chosencases_proper_subset")
+	o.ClassIf(c.MaxAmmoSize > 0, "maxammosize_set")
+	o.ClassIf(c.maxSize() > 0 && c.maxSize() <= defaultMaxEntry, "entries_1k_to_48k")
+	if c.maxSize() > defaultMaxEntry {
+		// an entry above the default bound of one entry, legal because maxammosize is raised; "reread" = the bounds need
+		// the file (and that entry) to be read more than once
+		o.Class("entries_over_64k")
+		o.Class(c.Kind + "/entries_over_64k")
+		reread := X < 0 || X > eff
+		o.ClassIf(reread, "entries_over_64k_read_again")
+		o.ClassIf(reread, c.Kind+"/entries_over_64k_read_again")
+	}
+	if c.Filter == "nothing" {
+		o.NonTrivial()
+		return checkNothing(c, p, o)
+	}
 	if X >= 0 && !(c.Kind == "uri" && !c.Preload) {
 		o.NonTrivial()
 	}
@@ -236,22 +401,22 @@ func check(c Case, o *vf.Obs) error {
 	if X >= 0 {
 		res, err := provrun.Drain(p, X+c.Consumers+3, c.Consumers, hangDeadline, nil)
 		if err != nil {
-			return fmt.Errorf("%s limit=%d passes=%d entries=%d: %v", c.Kind, c.Limit, c.Passes, c.Entries, err)
+			return fmt.Errorf("%s limit=%d passes=%d entries=%d%s: %v", c.Kind, c.Limit, c.Passes, c.Entries, c.extras(), err)
 		}
 		if len(res.Items) != X {
-			return fmt.Errorf("%s (preload=%v) limit=%d passes=%d entries=%d: %d ammo delivered, expected min of the non-zero bounds = %d (Run error: %v, hung: %q)",
-				c.Kind, c.Preload, c.Limit, c.Passes, c.Entries, len(res.Items), X, res.RunErr, res.Hung)
+			return fmt.Errorf("%s (preload=%v) limit=%d passes=%d entries=%d%s: %d ammo delivered, expected min of the non-zero bounds = %d (Run error: %v, hung: %q)",
+				c.Kind, c.Preload, c.Limit, c.Passes, c.Entries, c.extras(), len(res.Items), X, res.RunErr, res.Hung)
 		}
 		if res.Hung != "" {
-			return fmt.Errorf("%s (preload=%v) limit=%d passes=%d entries=%d: after the bound was reached: %s (nobody may stay blocked, the provider must return by itself)",
-				c.Kind, c.Preload, c.Limit, c.Passes, c.Entries, res.Hung)
+			return fmt.Errorf("%s (preload=%v) limit=%d passes=%d entries=%d%s: after the bound was reached: %s (nobody may stay blocked, the provider must return by itself)",
+				c.Kind, c.Preload, c.Limit, c.Passes, c.Entries, c.extras(), res.Hung)
 		}
 		if !res.EndSeen {
-			return fmt.Errorf("%s: consumers never observed end of ammo", c.Kind)
+			return fmt.Errorf("%s%s: consumers never observed end of ammo", c.Kind, c.extras())
 		}
 		if res.RunErr != nil {
-			return fmt.Errorf("%s (preload=%v) limit=%d passes=%d entries=%d: provider finished with error %q after delivering its %d ammo, expected nil",
-				c.Kind, c.Preload, c.Limit, c.Passes, c.Entries, res.RunErr, X)
+			return fmt.Errorf("%s (preload=%v) limit=%d passes=%d entries=%d%s: provider finished with error %q after delivering its %d ammo, expected nil",
+				c.Kind, c.Preload, c.Limit, c.Passes, c.Entries, c.extras(), res.RunErr, X)
 		}
 		return nil
 	}
@@ -264,16 +429,16 @@ func check(c Case, o *vf.Obs) error {
 	o.ClassIf(c.SettleUs > 0, c.Kind+"/cancel_after_consumers_stopped")
 	res, err := provrun.DrainSettle(p, want, c.Consumers, hangDeadline, time.Duration(c.SettleUs)*time.Microsecond, nil)
 	if err != nil {
-		return fmt.Errorf("%s unbounded, cancelled %dus after the consumers took their last ammo: %v", c.Kind, c.SettleUs, err)
+		return fmt.Errorf("%s%s unbounded, cancelled %dus after the consumers took their last ammo: %v", c.Kind, c.extras(), c.SettleUs, err)
 	}
 	if len(res.Items) != want {
-		return fmt.Errorf("%s unbounded (limit=0, passes=0): only %d ammo delivered of the %d requested (Run error: %v)", c.Kind, len(res.Items), want, res.RunErr)
+		return fmt.Errorf("%s%s unbounded (limit=0, passes=0): only %d ammo delivered of the %d requested (Run error: %v)", c.Kind, c.extras(), len(res.Items), want, res.RunErr)
 	}
 	if res.Hung != "" {
-		return fmt.Errorf("%s unbounded: %s", c.Kind, res.Hung)
+		return fmt.Errorf("%s%s unbounded: %s", c.Kind, c.extras(), res.Hung)
 	}
 	if res.RunErr != nil && res.RunErr != context.Canceled && !strings.Contains(res.RunErr.Error(), "context canceled") {
-		return fmt.Errorf("%s unbounded: Run returned %q after cancel (expected nil or the context error)", c.Kind, res.RunErr)
+		return fmt.Errorf("%s%s unbounded: Run returned %q after cancel (expected nil or the context error)", c.Kind, c.extras(), res.RunErr)
 	}
 	return nil
 }
@@ -287,9 +452,9 @@ func checkLive(c Case, p core.Provider, want int, o *vf.Obs) error {
 	o.Class(c.Kind + "/live_consumers")
 	o.ClassIf(c.Late > 0, "late_consumers")
 	o.ClassIf(c.BrokenTail, "broken_tail")
-	what := fmt.Sprintf("%s (preload=%v) unbounded, %d consumers acquiring until end of ammo, cancelled after %d ammo (+%dus)", c.Kind, c.Preload, c.Consumers, want, c.SettleUs)
+	what := fmt.Sprintf("%s (preload=%v)%s unbounded, %d consumers acquiring until end of ammo, cancelled after %d ammo (+%dus)", c.Kind, c.Preload, c.extras(), c.Consumers, want, c.SettleUs)
 	if c.BrokenTail {
-		what = fmt.Sprintf("%s (preload=%v) unbounded, file of %d entries followed by a malformed one, %d consumers acquiring until end of ammo", c.Kind, c.Preload, c.Entries, c.Consumers)
+		what = fmt.Sprintf("%s (preload=%v)%s unbounded, file of %d entries followed by a malformed one, %d consumers acquiring until end of ammo", c.Kind, c.Preload, c.extras(), c.Entries, c.Consumers)
 	}
 	res, err := provrun.DrainLive(p, want, c.Consumers, c.Late, hangDeadline, time.Duration(c.SettleUs)*time.Microsecond)
 	if err != nil {
@@ -304,6 +469,119 @@ func checkLive(c Case, p core.Provider, want int, o *vf.Obs) error {
 	}
 	if res.SelfStopped && res.RunErr == nil && !c.BrokenTail {
 		return fmt.Errorf("%s: Run returned nil by itself after %d ammo although neither limit nor passes is set", what, res.Taken)
+	}
+	return nil
+}
+
+// extras describes the options beyond the bounds for messages ("" when none is set).
+func (c Case) extras() string {
+	var sb strings.Builder
+	switch c.Filter {
+	case "subset":
+		fmt.Fprintf(&sb, " chosencases=tags of entries %v", c.Chosen)
+		if c.GhostTag != "" {
+			fmt.Fprintf(&sb, "+%q", c.GhostTag)
+		}
+		fmt.Fprintf(&sb, " (%d entries chosen)", len(c.Chosen))
+	case "nothing":
+		fmt.Fprintf(&sb, " chosencases=[%q] (matches no entry)", c.GhostTag)
+	}
+	if c.MaxAmmoSize > 0 {
+		fmt.Fprintf(&sb, " maxammosize=%d", c.MaxAmmoSize)
+	}
+	if c.maxSize() > 0 {
+		fmt.Fprintf(&sb, " entry body sizes=%v", c.Sizes)
+	}
+	return sb.String()
+}
+
+// checkNothing: chosencases lists only a tag that no entry carries, so the provider has nothing to hand over and -
+// unless it ends by itself (passes used up, "no ammo" failure) - is reading its file when the cancel arrives, not
+// parked on the hand-over as in the other cancelled cells. "Once ... it is cancelled a provider never keeps consumers
+// blocked, never spins, and returns promptly": Run must return within the hang deadline after the cancel, the consumers
+// that were in Acquire all along and consumers calling Acquire afterwards must see end of ammo, and not one ammo may have
+// been delivered (min(limit, passes x 0)). How a provider that never had ammo ends by itself (nil / error) is not
+// judged here (known open question chosencases-empty-match-preload-differs of C14).
+func checkNothing(c Case, p core.Provider, o *vf.Obs) error {
+	o.Class("chosencases_match_nothing")
+	o.Class(c.Kind + "/chosencases_match_nothing")
+	what := fmt.Sprintf("%s (preload=%v) limit=%d passes=%d entries=%d%s, %d consumers in Acquire", c.Kind, c.Preload, c.Limit, c.Passes, c.Entries, c.extras(), c.Consumers)
+	ctx, cancel := context.WithCancel(context.Background())
+	defer cancel()
+	runDone := make(chan error, 1)
+	go func() {
+		defer func() {
+			if r := recover(); r != nil {
+				runDone <- fmt.Errorf("panic in provider.Run: %v", r)
+			}
+		}()
+		runDone <- p.Run(ctx, core.ProviderDeps{Log: pand.NopLog(), PoolID: "verif"})
+	}()
+	var taken atomic.Int64
+	var panicked atomic.Value
+	consume := func(n int) chan struct{} {
+		var wg sync.WaitGroup
+		for i := 0; i < n; i++ {
+			wg.Add(1)
+			go func() {
+				defer wg.Done()
+				defer func() {
+					if r := recover(); r != nil {
+						panicked.Store(fmt.Sprintf("panic in Acquire/Release: %v", r))
+					}
+				}()
+				for {
+					a, ok := p.Acquire()
+					if !ok {
+						return
+					}
+					taken.Add(1)
+					p.Release(a)
+				}
+			}()
+		}
+		done := make(chan struct{})
+		go func() { wg.Wait(); close(done) }()
+		return done
+	}
+	liveDone := consume(c.Consumers)
+	// the provider scans for a while (or ends by itself), then the cancel
+	var runErr error
+	selfStopped := false
+	scan := time.NewTimer(time.Duration(c.SettleUs) * time.Microsecond)
+	defer scan.Stop()
+	select {
+	case runErr = <-runDone:
+		selfStopped = true
+	case <-scan.C:
+	}
+	cancel()
+	if !selfStopped {
+		o.Class("cancelled_while_scanning")
+		o.Class(c.Kind + "/cancelled_while_scanning")
+		select {
+		case runErr = <-runDone:
+		case <-time.After(hangDeadline):
+			return fmt.Errorf("%s: Provider.Run has not returned %v after its context was cancelled (cancel came %dus after the start, while the provider was reading its file)", what, hangDeadline, c.SettleUs)
+		}
+	}
+	select {
+	case <-liveDone:
+	case <-time.After(hangDeadline):
+		return fmt.Errorf("%s: Run has returned (%v, by itself: %v) but the consumers are still blocked in Acquire %v later", what, runErr, selfStopped, hangDeadline)
+	}
+	if c.Late > 0 {
+		select {
+		case <-consume(c.Late):
+		case <-time.After(hangDeadline):
+			return fmt.Errorf("%s: Run has returned (%v), but %d consumer(s) calling Acquire afterwards are still blocked %v later instead of seeing end of ammo", what, runErr, c.Late, hangDeadline)
+		}
+	}
+	if v := panicked.Load(); v != nil {
+		return fmt.Errorf("%s: %v", what, v)
+	}
+	if n := taken.Load(); n != 0 {
+		return fmt.Errorf("%s: %d ammo delivered although no entry carries a listed tag", what, n)
 	}
 	return nil
 }
@@ -329,15 +607,15 @@ func checkEngine(c Case, p core.Provider, X int) error {
 	ok, _ := vf.Deadline(hangDeadline, func() { runErr = eng.Run(ctx) })
 	if !ok {
 		cancel()
-		return fmt.Errorf("%s (preload=%v) limit=%d passes=%d entries=%d: a pool over this provider did not finish within %v although only %d ammo exist (%d shots so far)",
+		return fmt.Errorf("%s (preload=%v) limit=%d passes=%d entries=%d"+c.extras()+": a pool over this provider did not finish within %v although only %d ammo exist (%d shots so far)",
 			c.Kind, c.Preload, c.Limit, c.Passes, c.Entries, hangDeadline, X, shots.Load())
 	}
 	if runErr != nil {
-		return fmt.Errorf("%s (preload=%v) limit=%d passes=%d entries=%d: the run ended with %q, expected success after %d shots (%d made)",
+		return fmt.Errorf("%s (preload=%v) limit=%d passes=%d entries=%d"+c.extras()+": the run ended with %q, expected success after %d shots (%d made)",
 			c.Kind, c.Preload, c.Limit, c.Passes, c.Entries, runErr, X, shots.Load())
 	}
 	if int(shots.Load()) != X {
-		return fmt.Errorf("%s (preload=%v) limit=%d passes=%d entries=%d: %d shots, expected %d", c.Kind, c.Preload, c.Limit, c.Passes, c.Entries, shots.Load(), X)
+		return fmt.Errorf("%s (preload=%v) limit=%d passes=%d entries=%d"+c.extras()+": %d shots, expected %d", c.Kind, c.Preload, c.Limit, c.Passes, c.Entries, shots.Load(), X)
 	}
 	return nil
 }
